@@ -40,6 +40,7 @@ META = {
 def run(rep):
     from ..rules import walk as _W
     rep.run(_W.writer_sides_independent, "O19.1")
+    rep.run(_W.view_is_complete, "O19.1")
     table = W.writer_table(rep.repo)
     rep.extra["writer_role_table"] = table
     conv = rep.f(CV, "hypergraph_to_bipartite")
